@@ -188,6 +188,9 @@ func (vc *FuncVC) lookupIdent(env *Env, name string) *CVal {
 		for _, fv := range fn.FreeVars {
 			if fv.Name() == name {
 				elem := fv.Type().Underlying().(*types.Pointer).Elem()
+				if t, ok := vc.immutableCell(fv); ok {
+					return &CVal{T: t, Typ: elem}
+				}
 				ref := vc.val(fv).T
 				if isStruct(elem) {
 					return &CVal{T: ref, Typ: elem, SRef: true}
@@ -769,6 +772,63 @@ func (vc *FuncVC) evalCall(env *Env, x *ECall) *CVal {
 		return &CVal{T: Select(vc.logGet(env, env.st, label(0), "called", SBool), arg(1).T, SBool)}
 	case "time":
 		return &CVal{T: Select(vc.logGet(env, env.st, label(0), "time", SInt), arg(1).T, SInt)}
+	case "captured":
+		// captured(L, t, "name"): content of the variable `name` captured by the closure logged under L
+		L := label(0)
+		fn := vc.closureOf[L]
+		if env.callee && env.calleeCon != nil {
+			fn = nil
+			for _, w := range env.calleeCon.Watches {
+				pk, pn := splitWord(w.Pattern)
+				if w.Label == L && pk == "closure" {
+					for _, cand := range []string{pn, qualify(env.calleeCon.Pkg, pn)} {
+						if f := vc.P.Funcs[cand]; f != nil {
+							fn = f
+						}
+					}
+				}
+			}
+		}
+		nm, ok := x.Args[2].(*EStr)
+		if fn == nil || !ok {
+			panic(fmt.Errorf("captured: %s is not a closure watch, or name missing", L))
+		}
+		for i, fv := range fn.FreeVars {
+			if fv.Name() == nm.V {
+				comp := fmt.Sprintf("LG!%s%s!a%d", env.logPrefix, L, i)
+				if _, ok := vc.comps[comp]; !ok {
+					vc.comp(comp, arraySort(SInt, SInt), true)
+				}
+				ref := Select(env.st.get(comp), arg(1).T, SInt)
+				elem := fv.Type().Underlying().(*types.Pointer).Elem()
+				if isStruct(elem) {
+					return &CVal{T: ref, Typ: elem, SRef: true}
+				}
+				return &CVal{T: Select(env.st.get(vc.cellComp(elem, "")), ref, vc.sortOf(elem)), Typ: elem}
+			}
+		}
+		panic(fmt.Errorf("captured: closure %s does not capture %s", fn.Name(), nm.V))
+	case "argv":
+		L := label(0)
+		i, ok1 := x.Args[2].(*EInt)
+		j, ok2 := x.Args[3].(*EInt)
+		if !ok1 || !ok2 {
+			panic(fmt.Errorf("argv: constant indices expected"))
+		}
+		comp := fmt.Sprintf("LG!%s%s!a%d_%d", env.logPrefix, L, i.V.Int64(), j.V.Int64())
+		sort, ok := vc.comps[comp]
+		if !ok && env.callee && env.calleeName != "" {
+			if info, found := vc.P.calleeLogInfo(env.calleeName)[fmt.Sprintf("%s!a%d_%d", L, i.V.Int64(), j.V.Int64())]; found {
+				vc.comp(comp, info.sort, true)
+				vc.logTypes[comp] = info.typ
+				sort, ok = info.sort, true
+			}
+		}
+		if !ok {
+			panic(fmt.Errorf("argv(%s,…,%d,%d): no such logged variadic element", L, i.V.Int64(), j.V.Int64()))
+		}
+		_, es := arrayParts(sort)
+		return &CVal{T: Select(env.st.get(comp), arg(1).T, es), Typ: vc.logTypes[comp]}
 	case "recv", "arg", "ret":
 		L := label(0)
 		what := "recv"
@@ -839,6 +899,18 @@ func (vc *FuncVC) evalCall(env *Env, x *ECall) *CVal {
 			panic(fmt.Errorf("boxof: struct object"))
 		}
 		return &CVal{T: vc.box(v.T, t)}
+	case "boxas":
+		// boxas(v, "pkg.Type"): the interface value holding v converted to the named type
+		v := arg(0)
+		s, ok := x.Args[1].(*EStr)
+		if !ok {
+			panic(fmt.Errorf("boxas: type name string expected"))
+		}
+		pkg := ""
+		if p := vc.scopePkg(env); p != nil {
+			pkg = p.Path()
+		}
+		return &CVal{T: vc.box(v.T, vc.resolveType(s.V, pkg))}
 	case "isSub":
 		// isSub(x, s): x is a substring of s (exists-free form is not available; uninterpreted)
 		f := vc.declFun("isSub", []string{SStr, SStr}, SBool)
